@@ -265,6 +265,36 @@ def _mix_chunk(args):
     return n, viols, outcomes
 
 
+# "arbitrary text": characters no terminal accepts, of every kind the error path may look at -
+# unnamed control characters, DEL, C1, private use, a noncharacter, a tag character, NBSP,
+# look-alikes (MICRO SIGN, MIDDLE DOT), an astral symbol, a lone surrogate cannot be typed
+WEIRD = ["\x00", "\x0b", "\x1f", "\x7f", "\x85", "\ue000", "\uffff", "\U000e0080", "\u00a0", "\u00b5", "\u00b7", "\U0001f600", ","]
+WEIRD_CONTEXT = ["m", "5", " ", "/", "k", "^", "2"]
+
+
+def _weird_chunk(chars):
+    w = get_world()
+    m = w.m
+    from measured.parsing import ParseError
+
+    viols, outcomes, n = [], {}, 0
+    w.restore()
+    H = Hist()
+    for ch in chars:
+        alphabet = WEIRD_CONTEXT + [ch]
+        for length in (1, 2, 3):
+            for tup in itertools.product(alphabet, repeat=length):
+                if ch not in tup:
+                    continue
+                text = "".join(tup)
+                for entry in ENTRY:
+                    n += 1
+                    oc = H.check(m, ParseError, entry, text, viols)
+                    outcomes["weird:" + oc] = outcomes.get("weird:" + oc, 0) + 1
+    w.restore()
+    return n, viols, outcomes
+
+
 def fresh_table():
     from lark.tools import build_lalr, lalr_argparser
 
@@ -303,6 +333,13 @@ def run(rep, tier):
         rep.extend(r[1])
         for k, v in r[2].items():
             outcomes[k] = outcomes.get(k, 0) + v
+    n_weird = 0
+    for r in pmap(_weird_chunk, [[c] for c in WEIRD]):
+        n += r[0]
+        n_weird += r[0]
+        rep.extend(r[1])
+        for k, v in r[2].items():
+            outcomes[k] = outcomes.get(k, 0) + v
     mixlen = 6 if thorough else 5
     mjobs = []
     n_mix_seq = 0
@@ -321,7 +358,7 @@ def run(rep, tier):
     rep.cov.update(
         {
             "evaluations": n,
-            "distinct_nontrivial": n_str + nseq * styles * 2 + n_mix,
+            "distinct_nontrivial": n_str + nseq * styles * 2 + n_mix + n_weird,
             "rule": f"(a) every string of length 1..{L} over a {len(ALPHABET)}-character alphabet x (Unit.parse, Quantity.parse); "
             f"(b) every viable token sequence up to {maxlen} tokens plus each first rejecting token, rendered in {styles} lexeme styles "
             "(ordinary, unknown symbols, huge exponents, 1e999, 4400-digit literals) with and without spaces; (c) all single-token "
@@ -331,6 +368,8 @@ def run(rep, tier):
             "char_string_parses": n_str,
             "token_sequences": nseq,
             "mixed_lexeme_parses": n_mix,
+            "unusual_character_parses": n_weird,
+            "unusual_characters": [f"U+{ord(c):04X}" for c in WEIRD],
             "distinct_outcomes": dict(sorted(outcomes.items())),
             "samples": ["km/s²", "1e999 m", "5 zz", "m^99999999999", "%"],
             "exhaustive": True,
